@@ -530,6 +530,51 @@ def tour_mapping(rng, plan, pre, taken):
             M["p2"]: b"(2)"}
 
 
+def dag_tours(edges, init, max_len, rng):
+    """Edge cover for a graph that is a DAG plus self-loops (an accepted addition moves on, a rejected one stays):
+    every tour is the shortest path from `init` to a state that still has untaken edges, then, state after state,
+    all untaken self-loops followed by one untaken forward edge.  Linear in edges + total tour length (the generic
+    greedy cover of tools/vlib/tours.py searches the graph again for every tour)."""
+    loops, fwd = collections.defaultdict(list), collections.defaultdict(list)
+    for i, (f, a, t) in enumerate(edges):
+        (loops if f == t else fwd)[f].append(i)
+    for d in (loops, fwd):
+        for k in d:
+            rng.shuffle(d[k])
+    parent, order = {init: None}, [init]
+    for s in order:                                   # BFS
+        for e in fwd.get(s, []):
+            t = edges[e][2]
+            if t not in parent:
+                parent[t] = e
+                order.append(t)
+
+    def path_to(s):
+        p = []
+        while parent[s] is not None:
+            p.append(parent[s])
+            s = edges[parent[s]][0]
+        return p[::-1]
+
+    result = []
+    for s in order:
+        while loops.get(s) or fwd.get(s):
+            tour, cur = path_to(s), s
+            while len(tour) < max_len:
+                while loops.get(cur) and len(tour) < max_len:
+                    tour.append(loops[cur].pop())
+                if not fwd.get(cur) or len(tour) >= max_len:
+                    break
+                e = fwd[cur].pop()
+                tour.append(e)
+                cur = edges[e][2]
+            result.append(tour)
+    left = sum(len(v) for v in loops.values()) + sum(len(v) for v in fwd.values())
+    if left:
+        raise tlc.ModelError("%d edges of the exported graph are not reachable from its initial state" % left)
+    return result
+
+
 def tour_execs(rng, plan_by_case, phones, cfgs, broken, max_len, variants):
     """cfgs: list of (tag, cfg file, dcase, pre).  Returns (execs, tlc results, n_edges)."""
     execs, results, n_edges = [], [], 0
@@ -546,7 +591,10 @@ def tour_execs(rng, plan_by_case, phones, cfgs, broken, max_len, variants):
         n_edges += len(edges)
         plan0 = plan_by_case[dcase == "1"]
         for v in range(variants):
-            ts = tours.tours(edges, edges[0][0], max_len=max_len, rng=random.Random(rng.random()))
+            roots = {f for f, a, t in edges} - {t for f, a, t in edges if f != t}
+            if len(roots) != 1:
+                raise tlc.ModelError("exported graph of %s has %d states without predecessor" % (cfg, len(roots)))
+            ts = dag_tours(edges, roots.pop(), max_len, random.Random(rng.random()))
             taken = set()
             for ti, t in enumerate(ts):
                 mp = tour_mapping(rng, plan0, pre, taken)
@@ -824,11 +872,20 @@ def use_exec(rng, ui, plans, phones, broken):
 
 
 # ---------------------------------------------------------------------------------------------------------
+_REPLAYS = {}
+
+
 def write_replay(ctx, name, ex):
-    p = os.path.join(ctx.replays, re.sub(r"[^A-Za-z0-9_.-]", "_", name) + ".script")
-    with open(p, "w") as f:
-        f.write("\n".join(ex.render()) + "\n")
-    return p
+    """one replay file per violation key (the first execution that showed it); in --replay mode the file given"""
+    key = name.split("__")[0]
+    if ctx.replay:
+        return ctx.replay
+    if key not in _REPLAYS:
+        p = os.path.join(ctx.replays, re.sub(r"[^A-Za-z0-9_.-]", "_", name) + ".script")
+        with open(p, "w") as f:
+            f.write("\n".join(ex.render()) + "\n")
+        _REPLAYS[key] = p
+    return _REPLAYS[key]
 
 
 class Driver:
@@ -1012,11 +1069,16 @@ class Driver:
 def run_tlc_models(rep, cfgs, workers_each, par):
     """exhaustive runs, several at a time"""
     def one(c):
-        return c, tlc.run("MC_dict.tla", c[0], SPEC, workers=workers_each, timeout=2400, coverage=c[1] == "ref", heap="6g")
+        return c, tlc.run("MC_abs.tla" if c[1] == "abs" else "MC_dict.tla", c[0], SPEC, workers=workers_each, timeout=2400,
+                          coverage=c[1] in ("ref", "abs"), heap="6g")
     with concurrent.futures.ThreadPoolExecutor(max_workers=par) as pool:
         res = list(pool.map(one, cfgs))
     for (cfg, kind, expect), r in res:
-        if kind == "ref":
+        if kind == "abs":
+            if r.violated or r.coverage.get("AAdd", (0, 0))[0] == 0:
+                raise tlc.ModelError("DictAbs on its own: %s violated / vacuous in %s\n%s" % (r.violated, cfg, r.out[-2000:]))
+            rep.add_tlc("MC_abs.tla/" + cfg, r)
+        elif kind == "ref":
             if r.violated:
                 raise tlc.ModelError("DictImpl (intended design) does not refine DictAbs in %s: %s\n%s" % (cfg, r.violated, r.out[-2500:]))
             if r.coverage.get("AddWord", (0, 0))[0] == 0 or ("WithUse = TRUE" in open(os.path.join(SPEC, cfg)).read()
@@ -1067,8 +1129,12 @@ def run(ctx):
     dev = [("MC_dev_relink.cfg", "dev", "ChainExact"), ("MC_dev_relink_use.cfg", "dev", "NoCrash"),
            ("MC_dev_emptyword.cfg", "dev", "NoCrash"), ("MC_dev_emptypron.cfg", "dev", "NoCrash"),
            ("MC_dev_pronbuf.cfg", "dev", "NoCrash"), ("MC_dev_all.cfg", "dev", "Action property")]
-    run_tlc_models(rep, [(c, "ref", None) for c in ref], 4 if quick else 5, 4 if quick else 3)
-    run_tlc_models(rep, dev, 1, 6)
+    small = dev + [("MC_abs_case.cfg", "abs", None), ("MC_abs_nocase.cfg", "abs", None)]
+    if quick:
+        run_tlc_models(rep, [(c, "ref", None) for c in ref] + small, 3, 12)
+    else:
+        run_tlc_models(rep, small, 2, 8)
+        run_tlc_models(rep, [(c, "ref", None) for c in ref], 5, 3)
     lap("tlc_exhaustive")
 
     phones = initial_header(drv, ctx.work, "turtle", "-")["phones"]
